@@ -58,4 +58,19 @@ PROPS = {
         assumptions=['unforgeability of the signature schemes is NOT proved: theorems state that an accepted signed message verifies under the key bound to its author',
                      'own_messages_verify assumes correctness of the signature scheme and the (un)marshalling round trips (hypotheses of the theorem)'],
     ),
+    'C07': dict(
+        coq=['Props/C07', 'Run/RouterRun'],
+        go=[dict(run='^TestVF_Router$')],
+        rewrite_check=[('check_rcase', '(check_rcase_for 7)')],
+        trusted_base=['hand-written model Model/Router.v (mesh / fanout / backoff bookkeeping of gossipsub.go); random peer selection and scores enter as validated observations'],
+        assumptions=['scores are read from gs.score.Score right before each operation (application-specific integer scores; other score components switched off)',
+                     'valid parameters: GossipSubParams.validate plus 1 <= OpportunisticGraftTicks (validate does not check the latter; see DESIGN.md)'],
+    ),
+    'C08': dict(
+        coq=['Props/C08', 'Run/RouterRun'],
+        go=[dict(run='^TestVF_Router$')],
+        rewrite_check=[('check_rcase', '(check_rcase_for 8)')],
+        trusted_base=['hand-written model Model/Router.v (backoff map, graft sites, handleGraft / handlePrune, clearBackoff)'],
+        assumptions=['PRUNE backoff periods below 2^63 / 10^9 seconds (no int64 overflow of time.Duration)'],
+    ),
 }
